@@ -184,6 +184,26 @@ end
 /-- the round-trip value the property's sentence promises for writer configuration `c` -/
 def docSpec (c : Cfg) (g : Geom) : Geom := dropDims c.dims ⟨sridOut c g.srid, docG g.g⟩
 
+mutual
+  /-- every point whose X and Y are NaN consists of the canonical NaN in all four slots (the bytes the
+  writer emits for POINT EMPTY); for any other NaN/NaN point the re-read geometry is the empty point and
+  re-writing it cannot reproduce the original payload bits or Z/M values -/
+  def NanPtCanon : G → Bool
+    | .point s => s.pts.all (fun p => !(isNaNBits p.x && isNaNBits p.y) || decide (p = nanCoord))
+    | .compoundCurve gs => NanPtCanonL gs
+    | .curvePolygon gs => NanPtCanonL gs
+    | .multiPoint gs => NanPtCanonL gs
+    | .multiLineString gs => NanPtCanonL gs
+    | .multiPolygon gs => NanPtCanonL gs
+    | .collection gs => NanPtCanonL gs
+    | .multiCurve gs => NanPtCanonL gs
+    | .multiSurface gs => NanPtCanonL gs
+    | _ => true
+  def NanPtCanonL : List G → Bool
+    | [] => true
+    | g :: gs => NanPtCanon g && NanPtCanonL gs
+end
+
 /-! ### inputs on which the code keeps the promise -/
 
 def sameFlags (a b : CSeq) : Bool := a.hasZ == b.hasZ && a.hasM == b.hasM
